@@ -8,6 +8,7 @@ RESTATE = "seq"    # worker adds a signature restating the one in force to every
 SHUFFLE = "seq"    # worker: every seventh case is built by add_absolute_message in shuffled order
 CANONICAL_ABS = True   # the function under test pairs / merges over the canonically sorted list (oracle.abs_order)
 DEGEN = "seq"    # worker: every 37th case becomes a degenerate shape (gen.degenerate)
+REJECTED = "prefix"    # worker: every thirteenth case starts with a call the library rejects (common.apply_prefix "rejected")
 SCALE = True   # worker: every fortieth case is blown up by scale_case below
 PROP = "C06"
 MONITORS = ["qnl"]
